@@ -175,3 +175,4 @@ def run(ctx) -> None:
     abtest(ctx)
     C05.r_cache(ctx)
     C05.listing_passthrough(ctx)
+    shared.argname_scope(ctx, ('forml.application',), floor=2)
